@@ -7,7 +7,9 @@ import (
 	"encoding/json"
 	"fmt"
 	"strings"
+	"sync"
 	"time"
+	"unsafe"
 
 	"github.com/enfein/mieru/v3/pkg/cipher"
 	"github.com/enfein/mieru/v3/pkg/mathext"
@@ -24,8 +26,18 @@ import (
 //   ts       metadata stamped k minutes away (and absolute stamps near the uint32 wrap) through the
 //            real sessionStruct/dataAckStruct.Unmarshal; the minute counter Marshal stamps
 //   mid      mathext.Mid / WithinRange at uint32 (with wrap) and int64
-//   history  random non-monotonic histories of getCachedCiphers / tryDecryptAt on the process-wide
-//            cache, state compared after every operation (any jitter in [0,5 s) is accepted)
+//   history  random non-monotonic histories of getCachedCiphers / tryDecryptAt (two decryptors sharing the
+//            password) on the process-wide cache, state compared after every operation (any jitter in
+//            [0,5 s) is accepted); instants with and without a monotonic reading, also monotonic readings
+//            that disagree with the wall clock (as after a clock step)
+//   hs       the first TCP segment / UDP datagram with its three instants: key derived for tk, stamped at ts,
+//            received at tr = the real clock: real key selection (tryDecryptAt at tr) + real Unmarshal vs
+//            Mieru.Handshake.recvFirstTcp / recvFirstUdp (executable AEAD, PBKDF2 keys)
+//   est      an established session: a stateful cipher pair keeps accepting its ORIGINAL key at an instant
+//            hours later, while a first contact with that key is refused (documented scope of the 4-minute
+//            clause; not a finding)
+//   gen      the definitions regenerated from the source (Mieru.Gen.FactsC08 through mieru-gen) against the
+//            real cipherKeyEpoch / saltFromTime / Mid / WithinRange / Marshal stamp / Unmarshal test
 // Direct oracles: |d| <= 60 s => decrypts and timestamp accepted; |d| >= 240 s => never decrypts;
 // stamp >= 2 minutes away => rejected; every entry the cache hands out carries exactly the keys
 // derived for the slot of the instant it was asked for.
@@ -34,6 +46,9 @@ type c08Op struct {
 	Kind       string `json:"kind"` // lookup | try
 	NowNs      int64  `json:"now_ns"`
 	SenderSlot int    `json:"sender_slot,omitempty"` // try: slot of the sealing key, relative to the slot of NowNs
+	Dec        int    `json:"dec,omitempty"`         // try: which of the decryptors sharing the password
+	HasMono    bool   `json:"has_mono,omitempty"`    // the instant carries a monotonic reading …
+	MonoNs     int64  `json:"mono_ns,omitempty"`     // … of this many ns (relative to an arbitrary origin)
 }
 
 type c08Case struct {
@@ -49,6 +64,7 @@ type c08Case struct {
 	C      int64   `json:"c,omitempty"`
 	U32    bool    `json:"u32,omitempty"`
 	Ops    []c08Op `json:"ops,omitempty"`
+	Note   string  `json:"note,omitempty"`
 }
 
 func c08Abs(x int64) int64 {
@@ -79,6 +95,26 @@ func c08Slot(c *core.Ctx, k c08Case) {
 		if !bytes.Equal(h[:], salts[i]) {
 			c.Disagree("C08/corr/salt-times", fmt.Sprintf("t=%dns: salt %d is not SHA256(be64(%d))", k.TNs, i, st), k)
 			return
+		}
+	}
+	// the regenerated definitions (translator output) against the real functions
+	if c.Gen != nil {
+		c.Compared()
+		if g := c.Gen.Ask("c08gen-epoch %d", k.TNs); g != fmt.Sprintf("ok %d", ep) {
+			c.Disagree("C08/gen/epoch", fmt.Sprintf("t=%dns: regenerated cipherKeyEpoch %s, real %d", k.TNs, g, ep), k)
+		}
+		gs := strings.Fields(c.Gen.Ask("c08gen-salt-times %d", k.TNs))
+		okg := len(gs) == 1+len(salts)
+		for i := 0; okg && i < len(salts); i++ {
+			var st int64
+			fmt.Sscan(gs[1+i], &st)
+			var b [8]byte
+			binary.BigEndian.PutUint64(b[:], uint64(st))
+			h := sha256.Sum256(b[:])
+			okg = bytes.Equal(h[:], salts[i])
+		}
+		if !okg {
+			c.Disagree("C08/gen/salt-times", fmt.Sprintf("t=%dns: regenerated saltFromTime times %v do not hash to the %d real salts", k.TNs, gs, len(salts)), k)
 		}
 	}
 }
@@ -117,10 +153,15 @@ func c08Skew(c *core.Ctx, k c08Case) {
 	switch {
 	case c08Abs(k.DNs) <= 60e9:
 		c.Hist("skew", "<=60s")
+	case c08Abs(k.DNs) <= 120e9:
+		c.Hist("skew", "60s..120s")
 	case c08Abs(k.DNs) < 240e9:
-		c.Hist("skew", "60s..240s")
+		c.Hist("skew", "120s..240s")
 	default:
 		c.Hist("skew", ">=240s")
+	}
+	if k.Note != "" { // deterministic boundary skews, printed one by one
+		c.Hist("skew_boundary", fmt.Sprintf("d=%s: decrypts=%v", k.Note, ok))
 	}
 	idx := "none"
 	if ok && held != nil {
@@ -141,6 +182,7 @@ func c08Skew(c *core.Ctx, k c08Case) {
 	if c08Abs(k.DNs) <= 60e9 && !ok {
 		c.Violate("C08/skew/within-60s-no-common-key", fmt.Sprintf("sender at %dns, receiver %dns later: tryDecryptAt fails (%v)", k.TNs, k.DNs, derr), k)
 	}
+	// (60 s, 120 s]: the proved key bound slot_agreement_120 — covered by the comparison with the model above
 	if c08Abs(k.DNs) >= 240e9 && ok {
 		c.Violate("C08/skew/4min-accepted", fmt.Sprintf("sender at %dns, receiver %dns later: segment decrypts", k.TNs, k.DNs), k)
 	}
@@ -175,17 +217,49 @@ func c08Ts(c *core.Ctx, k c08Case) {
 	if k.Kind == "ts" {
 		ts = uint32(int64(now) + int64(k.K))
 	}
+	var trNs int64
+	if k.Kind == "ts-skew" {
+		// the sender stamped at ts = tr + d, tr = the receiver's (real) clock; the stamp is computed by the
+		// expression Marshal uses (regenerated and proved equal to the model's minuteU32: minuteU32_eq_gen)
+		trNs = time.Now().UnixNano()
+		ts = uint32(time.Unix(0, trNs+k.DNs).Unix() / 60)
+	}
 	err := c08Unmarshal(k.Layout, c08MetaBytes(k.Layout, ts))
-	c.Eval(fmt.Sprintf("ts/%s/%s/%d/%d", k.Kind, k.Layout, k.K, k.Ts), true)
+	c.Eval(fmt.Sprintf("ts/%s/%s/%d/%d/%d", k.Kind, k.Layout, k.K, k.Ts, k.DNs), true)
 	dist := int64(now) - int64(ts)
 	if dist < 0 {
 		dist = -dist
 	}
 	c.Hist("ts_distance_minutes", map[bool]string{true: "<=1", false: ">=2"}[dist <= 1])
+	if k.Kind == "ts-abs" && k.Note != "" { // the deterministic stamps, printed one by one
+		c.Hist("ts_absolute_stamp", fmt.Sprintf("stamp=%s: accepted=%v", k.Note, err == nil))
+	}
 	m := c.Model.Ask("c08-ts-ok %d %d", now, ts)
 	c.Compared()
 	if m != fmt.Sprintf("ok %v", err == nil) {
 		c.Disagree("C08/corr/ts-ok", fmt.Sprintf("now=%d stamp=%d: model %s, Unmarshal err=%v", now, ts, m, err), k)
+	}
+	if k.Kind == "ts-skew" {
+		c.Hist("ts_skew_boundary", fmt.Sprintf("d=%s: accepted=%v", k.Note, err == nil))
+		m2 := c.Model.Ask("c08-ts-skew %d %d", trNs, trNs+k.DNs)
+		c.Compared()
+		if m2 != fmt.Sprintf("ok %v %d %d", err == nil, now, ts) {
+			c.Disagree("C08/corr/ts-skew", fmt.Sprintf("receiver at %dns (minute %d), stamped at %+dns (minute %d): model %s, Unmarshal err=%v", trNs, now, k.DNs, ts, m2, err), k)
+		}
+		if c08Abs(k.DNs) <= 60e9 && err != nil {
+			c.Violate("C08/timestamp/within-60s-rejected", fmt.Sprintf("receiver at %dns, segment stamped %dns away (stamp %d, receiver minute %d): Unmarshal rejects (%v)", trNs, k.DNs, ts, now, err), k)
+		}
+		if c08Abs(k.DNs) >= 120e9 && err == nil {
+			c.Violate("C08/timestamp/2min-accepted", fmt.Sprintf("receiver at %dns, segment stamped %dns away (stamp %d, receiver minute %d): Unmarshal accepts", trNs, k.DNs, ts, now), k)
+		}
+	}
+	if c.Gen != nil {
+		c.Compared()
+		g := strings.Fields(c.Gen.Ask("c08gen-ts-reject %d %d", now, ts))
+		col := map[string]int{"s": 1, "d": 2}[k.Layout]
+		if len(g) != 3 || g[col] != fmt.Sprint(err != nil) {
+			c.Disagree("C08/gen/ts-reject", fmt.Sprintf("now=%d stamp=%d: regenerated timestamp tests (session, dataAck) %v, %s Unmarshal err=%v", now, ts, g, k.Layout, err), k)
+		}
 	}
 	if dist <= 1 && err != nil {
 		c.Violate("C08/timestamp/within-1min-rejected", fmt.Sprintf("receiver minute %d, stamp %d: Unmarshal rejects (%v)", now, ts, err), k)
@@ -204,14 +278,39 @@ func c08Minute(c *core.Ctx, k c08Case) {
 		c.Res.Discarded++
 		return
 	}
+	if c.Search {
+		// a proof obligation or a tie broke: also look at the second half of the minute, where a stamp that is rounded
+		// instead of truncated differs (waits at most half a minute)
+		for i := 0; i < 320 && time.Now().Unix()%60 < 31; i++ {
+			time.Sleep(100 * time.Millisecond)
+		}
+	}
 	t0 := time.Now()
 	_, stamp := protocol.VerifMarshalSession(protocol.VerifSession{Protocol: 2})
 	_, stamp2 := protocol.VerifMarshalDataAck(protocol.VerifDataAck{Protocol: 6})
 	c.Eval("minute", true)
+	// direct oracle: receivers whose clocks are 60 s behind / ahead compute these minute counters (the expression of
+	// Unmarshal, minuteU32_eq_gen) and must accept the stamp Marshal wrote just now
+	if t1 := time.Now(); t0.Unix()/60 == t1.Unix()/60 {
+		for _, d := range []int64{-60e9, 60e9} {
+			cur := uint32(time.Unix(0, t0.UnixNano()+d).Unix() / 60)
+			for i, st := range []uint32{stamp, stamp2} {
+				if !mathext.WithinRange(int64(cur), int64(st), 1) {
+					c.Violate("C08/timestamp/marshal-stamp-outside-60s-window", fmt.Sprintf("%s Marshal at %dns stamped %d; a receiver whose clock is %+d s away counts minute %d and refuses it", []string{"sessionStruct", "dataAckStruct"}[i], t0.UnixNano(), st, d/1e9, cur), k)
+				}
+			}
+		}
+	}
 	m := c.Model.Ask("c08-minute %d", t0.UnixNano())
 	c.Compared()
 	if m != fmt.Sprintf("ok %d", stamp) || stamp != stamp2 {
 		c.Disagree("C08/corr/minute", fmt.Sprintf("model %s, Marshal stamped %d / %d at %d ns", m, stamp, stamp2, t0.UnixNano()), k)
+	}
+	if c.Gen != nil {
+		c.Compared()
+		if g := c.Gen.Ask("c08gen-minute %d", t0.UnixNano()); g != fmt.Sprintf("ok %d %d %d %d", stamp, stamp, stamp, stamp2) {
+			c.Disagree("C08/gen/minute", fmt.Sprintf("regenerated minute counters (Unmarshal s, d, Marshal s, d) %s, Marshal stamped %d / %d at %d ns", g, stamp, stamp2, t0.UnixNano()), k)
+		}
 	}
 }
 
@@ -234,19 +333,102 @@ func c08Mid(c *core.Ctx, k c08Case) {
 	if m := c.Model.Ask("c08-within %d %d %d", k.A, k.B, k.C); m != fmt.Sprintf("ok %v", mathext.WithinRange(k.A, k.B, k.C)) {
 		c.Disagree("C08/corr/within", fmt.Sprintf("WithinRange[int64](%d,%d,%d): model %s, code %v", k.A, k.B, k.C, m, mathext.WithinRange(k.A, k.B, k.C)), k)
 	}
+	if c.Gen != nil {
+		c.Compared()
+		if g := c.Gen.Ask("c08gen-mid %d %d %d", k.A, k.B, k.C); g != fmt.Sprintf("ok %d", mathext.Mid(k.A, k.B, k.C)) {
+			c.Disagree("C08/gen/mid", fmt.Sprintf("Mid(%d,%d,%d): regenerated %s, code %d", k.A, k.B, k.C, g, mathext.Mid(k.A, k.B, k.C)), k)
+		}
+		if g := c.Gen.Ask("c08gen-within %d %d %d", k.A, k.B, k.C); g != fmt.Sprintf("ok %v", mathext.WithinRange(k.A, k.B, k.C)) {
+			c.Disagree("C08/gen/within", fmt.Sprintf("WithinRange[int64](%d,%d,%d): regenerated %s, code %v", k.A, k.B, k.C, g, mathext.WithinRange(k.A, k.B, k.C)), k)
+		}
+	}
 }
 
 func c08ShowEntry(e *cipher.VerifCacheEntry) string {
 	if e == nil {
 		return "none"
 	}
+	if e.CreateTime.Round(0) != e.CreateTime && c08ForgeOK {
+		// the creation instant carries a monotonic reading (a forged instant of a history): show it relative to the
+		// origin all forged instants share (Sub uses the monotonic readings)
+		return fmt.Sprintf("%d/%d/%d", e.Epoch, e.CreateTime.UnixNano(), int64(e.CreateTime.Sub(c08ForgeBase)))
+	}
 	return fmt.Sprintf("%d/%d", e.Epoch, e.CreateTime.UnixNano())
+}
+
+// goTimeLayout mirrors time.Time (wall, ext, loc): with the top bit of wall set, ext is the monotonic
+// reading.  Used only to build a time.Time whose monotonic reading DISAGREES with its wall reading — what
+// time.Now() returns after the wall clock was stepped — which the public API cannot construct.
+type goTimeLayout struct {
+	wall uint64
+	ext  int64
+	loc  *time.Location
+}
+
+var (
+	c08ForgeOnce sync.Once
+	c08ForgeBase time.Time
+	c08ForgeOK   bool
+)
+
+// c08Forge returns a time.Time with wall reading wallNs (Unix ns) and a monotonic reading of monoNs
+// relative to a fixed origin (the same for every forged value of the process).
+func c08Forge(wallNs, monoNs int64) time.Time {
+	base := c08ForgeBase
+	shift := wallNs - base.UnixNano()
+	t := base.Add(time.Duration(shift)) // wall = wallNs; the monotonic reading moved by the same amount
+	p := (*goTimeLayout)(unsafe.Pointer(&t))
+	if p.wall>>63 == 1 {
+		p.ext += monoNs - shift // monotonic reading = base's + monoNs
+	}
+	return t
+}
+
+// c08ForgeCheck validates the forging against the public API of package time (once per process).
+func c08ForgeCheck() bool {
+	c08ForgeOnce.Do(func() {
+		c08ForgeBase = time.Now()
+		if unsafe.Sizeof(time.Time{}) != unsafe.Sizeof(goTimeLayout{}) {
+			return
+		}
+		w := int64(1_700_000_000_123_456_789)
+		a, b := c08Forge(w, 5e9), c08Forge(w-100e9, 47e9)
+		// wall readings as asked; Sub/Before use the monotonic readings (b is 42 s LATER monotonically, 100 s EARLIER on the wall);
+		// Round strips the monotonic reading and uses the wall
+		c08ForgeOK = a.UnixNano() == w && b.UnixNano() == w-100e9 && b.Sub(a) == 42*time.Second && a.Before(b) &&
+			!b.Round(0).Before(a.Round(0).Add(-100*time.Second)) && b.Round(0).Before(a.Round(0)) &&
+			a.Add(43*time.Second).After(b) && !a.Add(41*time.Second).After(b) &&
+			cipher.VerifCipherKeyEpoch(a) == cipher.VerifCipherKeyEpoch(time.Unix(0, w))
+	})
+	return c08ForgeOK
+}
+
+func c08OpInstant(op c08Op) (time.Time, string) {
+	if op.HasMono {
+		return c08Forge(op.NowNs, op.MonoNs), fmt.Sprintf("%d/%d", op.NowNs, op.MonoNs)
+	}
+	return time.Unix(0, op.NowNs), fmt.Sprint(op.NowNs)
 }
 
 func c08History(c *core.Ctx, k c08Case) {
 	hp := core.UnHex(k.Pass)
+	for _, op := range k.Ops {
+		if op.HasMono && !c08ForgeCheck() {
+			c.Note("C08: time.Time layout check failed; histories with monotonic readings are skipped")
+			c.Res.Discarded++
+			return
+		}
+	}
 	cipher.VerifResetCipherCache()
-	d, _ := cipher.VerifNewStatelessDecryptor(hp)
+	// several decryptors share the password (the server has one per user and configuration generation)
+	var decs []*cipher.StatelessDecryptor
+	decOf := func(i int) *cipher.StatelessDecryptor {
+		for len(decs) <= i {
+			d, _ := cipher.VerifNewStatelessDecryptor(hp)
+			decs = append(decs, d)
+		}
+		return decs[i]
+	}
 	h := strings.TrimPrefix(c.Model.Ask("c08-kc-new %d", cipher.VerifConsts()["cacheValidIntervalNs"]), "ok ")
 	keysAt := map[int64][][]byte{}
 	keysFor := func(epoch int64) [][]byte {
@@ -260,12 +442,14 @@ func c08History(c *core.Ctx, k c08Case) {
 	sealed := map[int64][]byte{}
 	c.Eval(fmt.Sprintf("history/%s/%v", k.Pass, k.Ops), true)
 	c.Res.TracesValidated++
+	var prevID interface{}
 	for i, op := range k.Ops {
-		now := time.Unix(0, op.NowNs)
+		now, nowTok := c08OpInstant(op)
 		nowEpoch := cipher.VerifCipherKeyEpoch(now)
 		var used *cipher.VerifCacheEntry
 		var real, ask string
 		c.Hist("history_op", op.Kind)
+		c.Hist("history_instant", map[bool]string{true: "monotonic+wall", false: "wall only"}[op.HasMono])
 		if op.Kind == "lookup" {
 			e, err := cipher.VerifGetCachedCiphers(string(hp), now)
 			if err != nil {
@@ -274,8 +458,9 @@ func c08History(c *core.Ctx, k c08Case) {
 			}
 			used = &e
 			real = "ok"
-			ask = fmt.Sprintf("lookup %s %d", h, op.NowNs)
+			ask = fmt.Sprintf("lookup %s %s", h, nowTok)
 		} else {
+			c.Hist("history_decryptor", fmt.Sprint(op.Dec))
 			se := nowEpoch + int64(op.SenderSlot)*120
 			ct, ok := sealed[se]
 			if !ok {
@@ -287,7 +472,7 @@ func c08History(c *core.Ctx, k c08Case) {
 				}
 				sealed[se] = ct
 			}
-			key, _, held, derr := d.VerifTryDecryptAt(ct, now)
+			key, _, held, derr := decOf(op.Dec).VerifTryDecryptAt(ct, now)
 			used = held
 			idx := "none"
 			if derr == nil && held != nil {
@@ -299,7 +484,7 @@ func c08History(c *core.Ctx, k c08Case) {
 			}
 			c.Hist("history_try", "key="+idx)
 			real = "ok key=" + idx
-			ask = fmt.Sprintf("try %s %d", h, op.NowNs)
+			ask = fmt.Sprintf("try %s %s", h, nowTok)
 			// direct: |slot distance| <= 1 decrypts, >= 2 does not
 			if (op.SenderSlot >= -1 && op.SenderSlot <= 1) != (derr == nil) {
 				c.Violate("C08/cache/try-decrypt-slot-set", fmt.Sprintf("op %d: sender slot %+d relative to the receiver's: err=%v", i, op.SenderSlot, derr), k)
@@ -311,20 +496,20 @@ func c08History(c *core.Ctx, k c08Case) {
 		}
 		// direct oracle: the entry handed out is the one derived for slot(now)
 		if used == nil || used.Epoch != nowEpoch {
-			c.Violate("C08/cache/crosses-slots/epoch", fmt.Sprintf("op %d (%s at %dns): entry of epoch %s used at epoch %d", i, op.Kind, op.NowNs, c08ShowEntry(used), nowEpoch), k)
+			c.Violate("C08/cache/crosses-slots/epoch", fmt.Sprintf("op %d (%s at %sns): entry of epoch %s used at epoch %d", i, op.Kind, nowTok, c08ShowEntry(used), nowEpoch), k)
 			return
 		}
 		want := keysFor(nowEpoch)
 		for j := range want {
 			if !bytes.Equal(want[j], used.Keys[j]) {
-				c.Violate("C08/cache/crosses-slots/keys", fmt.Sprintf("op %d (%s at %dns): key %d of the entry is not the key derived for epoch %d", i, op.Kind, op.NowNs, j, nowEpoch), k)
+				c.Violate("C08/cache/crosses-slots/keys", fmt.Sprintf("op %d (%s at %sns): key %d of the entry is not the key derived for epoch %d", i, op.Kind, nowTok, j, nowEpoch), k)
 				return
 			}
 		}
 		// model: any jitter the code can draw is allowed; 0 and cacheValidMaxJitterMs-1 are the two extreme behaviours
 		suffix := ""
 		if op.Kind == "try" {
-			suffix = fmt.Sprintf(" %d", nowEpoch+int64(op.SenderSlot)*120)
+			suffix = fmt.Sprintf(" %d %d", nowEpoch+int64(op.SenderSlot)*120, op.Dec)
 		}
 		parts := strings.SplitN(ask, " ", 2)
 		matched := false
@@ -332,12 +517,7 @@ func c08History(c *core.Ctx, k c08Case) {
 		for _, j := range []int64{0, cipher.VerifConsts()["cacheValidMaxJitterMs"] - 1} {
 			m := c.Model.Ask("c08-kc-peek-%s %s %d%s", parts[0], parts[1], j, suffix)
 			seen = append(seen, m)
-			// what the decryptor holds is not observable after a direct cache lookup
-			mm := m
-			if i := strings.Index(mm, " held="); i >= 0 && op.Kind == "lookup" {
-				mm = mm[:i]
-			}
-			if mm == real {
+			if m == real {
 				c.Model.Ask("c08-kc-%s %s %d%s", parts[0], parts[1], j, suffix)
 				if j != 0 {
 					c.Hist("history_jitter_zone", "fresh-inside-jitter-zone")
@@ -347,10 +527,267 @@ func c08History(c *core.Ctx, k c08Case) {
 			}
 		}
 		c.Compared()
+		if k.Note != "" && i > 0 { // deterministic cache-age boundaries, printed one by one
+			c.Hist("cache_age_boundary", fmt.Sprintf("%s, op %d (%s): %s", k.Note, i, op.Kind, map[bool]string{true: "same entry as the previous op", false: "another entry"}[used.ID == prevID]))
+		}
+		prevID = used.ID
 		if !matched {
-			c.Disagree("C08/corr/cache-history", fmt.Sprintf("op %d (%s at %dns): code %s; model with minimal / maximal jitter: %s", i, op.Kind, op.NowNs, real, strings.Join(seen, " | ")), k)
+			c.Disagree("C08/corr/cache-history", fmt.Sprintf("op %d (%s at %sns): code %s; model with minimal / maximal jitter: %s", i, op.Kind, nowTok, real, strings.Join(seen, " | ")), k)
 			return
 		}
+	}
+}
+
+// c08Handshake: the first TCP segment / UDP datagram with its three instants.  tr is the REAL clock (Unmarshal
+// reads time.Now() itself and cannot be given an instant without changing the code); the key is derived for
+// tk = tr + DNs and the segment is stamped for ts = tr + A.
+func c08Handshake(c *core.Ctx, k c08Case) {
+	nowMin, stable := nowMinute()
+	if !stable {
+		c.Res.Discarded++
+		return
+	}
+	hp := core.UnHex(k.Pass)
+	trNs := time.Now().UnixNano()
+	tr := time.Unix(0, trNs)
+	stamp := uint32(time.Unix(0, trNs+k.A).Unix() / 60)
+	skeys, err := cipher.VerifKeysAt(hp, time.Unix(0, trNs+k.DNs))
+	if err != nil {
+		c.Violate("C08/keys/derivation-error", err.Error(), k)
+		return
+	}
+	// metadata bytes from the real Marshal (session: open request; data: client-to-server data without payload),
+	// stamp field overwritten with the sender's minute
+	var md []byte
+	if k.Layout == "d" {
+		md, _ = protocol.VerifMarshalDataAck(protocol.VerifDataAck{Protocol: 6, SessionID: 7, Seq: 1, WindowSize: 256})
+	} else {
+		md, _ = protocol.VerifMarshalSession(protocol.VerifSession{Protocol: 2, SessionID: 7})
+	}
+	binary.BigEndian.PutUint32(md[2:], stamp)
+	first, err := c08Seal(skeys[1], md) // nonce ‖ sealed metadata: the head of a TCP stream and a whole UDP datagram
+	if err != nil {
+		c.Violate("C08/keys/seal-error", err.Error(), k)
+		return
+	}
+	cipher.VerifResetCipherCache()
+	d, _ := cipher.VerifNewStatelessDecryptor(hp)
+	key, pt, held, derr := d.VerifTryDecryptAt(first, tr)
+	idx := "none"
+	if derr == nil && held != nil {
+		for i, kk := range held.Keys {
+			if bytes.Equal(kk, key) {
+				idx = fmt.Sprint(i)
+			}
+		}
+	}
+	var uerr error
+	if derr == nil {
+		uerr = c08Unmarshal(k.Layout, pt)
+	}
+	accepted := derr == nil && uerr == nil
+	c.Eval(fmt.Sprintf("hs/%s/%d/%d", k.Layout, k.DNs, k.A), accepted)
+	c.Hist("handshake", fmt.Sprintf("key %s, stamp %s: accepted=%v", c08Band(k.DNs, 120e9, 240e9), c08Band(k.A, 60e9, 120e9), accepted))
+	realS := "none"
+	if accepted {
+		realS = fmt.Sprintf("ok key=%s stamp=%d", idx, stamp)
+	}
+	for _, opn := range []string{"tcp", "udp"} {
+		m := c.Model.Ask("c08-recv-first-%s %s %d %s", opn, k.Pass, trNs, core.Hex(first))
+		c.Compared()
+		mm := m
+		if strings.HasPrefix(m, "ok ") {
+			f := strings.Fields(m)
+			mm = strings.Join(f[:3], " ")
+		} else if strings.HasPrefix(m, "none") {
+			mm = "none"
+		}
+		if mm != realS {
+			c.Disagree("C08/corr/first-contact-"+opn, fmt.Sprintf("receiver at %dns (minute %d), key derived %+dns away, stamped %+dns away (%d): model %s; code tryDecryptAt key=%s err=%v, Unmarshal err=%v", trNs, nowMin, k.DNs, k.A, stamp, m, idx, derr, uerr), k)
+		}
+	}
+	dist := int64(nowMin) - int64(stamp)
+	if dist < 0 {
+		dist = -dist
+	}
+	if c08Abs(k.DNs) <= 120e9 && c08Abs(k.A) <= 60e9 && !accepted {
+		key := "C08/handshake/three-instants-refused"
+		if c08Abs(k.DNs) <= 60e9 {
+			key = "C08/handshake/within-60s-refused"
+		}
+		c.Violate(key, fmt.Sprintf("receiver at %dns, key derived %+dns away, segment stamped %+dns away: decrypt err=%v, Unmarshal err=%v", trNs, k.DNs, k.A, derr, uerr), k)
+	}
+	if c08Abs(k.DNs) >= 240e9 && accepted {
+		c.Violate("C08/handshake/stale-key-accepted", fmt.Sprintf("receiver at %dns accepts a first segment whose key was derived %+dns away", trNs, k.DNs), k)
+	}
+	if dist >= 2 && accepted {
+		c.Violate("C08/handshake/stale-stamp-accepted", fmt.Sprintf("receiver at minute %d accepts a first segment stamped %d", nowMin, stamp), k)
+	}
+}
+
+func c08Band(d int64, a, b int64) string {
+	switch {
+	case c08Abs(d) <= a:
+		return fmt.Sprintf("<=%ds", a/1e9)
+	case c08Abs(d) < b:
+		return fmt.Sprintf("%ds..%ds", a/1e9, b/1e9)
+	}
+	return fmt.Sprintf(">=%ds", b/1e9)
+}
+
+// c08Established: documented behaviour, NOT a finding.  The four-minute clause of C08 is about key selection for
+// a connection that has no key yet.  A stateful cipher pair (what a TCP connection / UDP session keeps after the
+// first segment) never consults the clock: it keeps accepting segments under its original key at an instant
+// DNs later (hours), while at that instant a first contact under the same key is refused and the cache holds
+// other keys.  Model: established_session_ignores_candidates / established_session_accepts_original_key.
+func c08Established(c *core.Ctx, k c08Case) {
+	hp := core.UnHex(k.Pass)
+	t0 := time.Unix(0, k.TNs)
+	t1 := time.Unix(0, k.TNs+k.DNs)
+	snd, err := cipher.VerifBlockCipherListAt(hp, t0, false)
+	if err != nil {
+		c.Violate("C08/keys/derivation-error", err.Error(), k)
+		return
+	}
+	send := snd[1] // what BlockCipherFromPassword hands a client at t0
+	// the server's first contact at t0: stateless key selection, then a stateful receive cipher with that key
+	cipher.VerifResetCipherCache()
+	d, _ := cipher.VerifNewStatelessDecryptor(hp)
+	m1 := []byte("first  metadata plaintext 32 B..")
+	first := make([]byte, 0, 128)
+	if err := send.Encrypt(first, m1); err != nil {
+		c.Violate("C08/keys/seal-error", err.Error(), k)
+		return
+	}
+	first = first[:len(m1)+cipher.DefaultNonceSize+cipher.DefaultOverhead]
+	key0, pt0, _, derr := d.VerifTryDecryptAt(first, t0)
+	if derr != nil || !bytes.Equal(pt0, m1) {
+		c.Disagree("C08/corr/established-first", fmt.Sprintf("first contact at the key instant %dns fails: %v", k.TNs, derr), k)
+		return
+	}
+	recvList, _ := cipher.VerifBlockCipherListAt(hp, t0, false)
+	recv := recvList[1]
+	if !bytes.Equal(cipher.VerifKeyOf(recv), key0) {
+		c.Disagree("C08/corr/established-first", "the key selected at first contact is not the sender's", k)
+		return
+	}
+	if _, err := recv.Decrypt(first); err != nil { // brings the receive cipher to the sender's nonce sequence
+		c.Disagree("C08/corr/established-first", "stateful receive cipher does not open the first segment: "+err.Error(), k)
+		return
+	}
+	// … DNs later
+	m2 := []byte("later  metadata plaintext 32 B..")
+	later := make([]byte, 0, 128)
+	if err := send.Encrypt(later, m2); err != nil {
+		c.Violate("C08/keys/seal-error", err.Error(), k)
+		return
+	}
+	later = later[:len(m2)+cipher.DefaultOverhead]
+	got, lerr := recv.Decrypt(later)
+	establishedOK := lerr == nil && bytes.Equal(got, m2)
+	// a NEW first contact under the old key at t1, and what the cache holds at t1
+	again := make([]byte, 0, 128)
+	fresh, _ := cipher.VerifBlockCipherListAt(hp, t0, false)
+	fresh[1].Encrypt(again, m1)
+	again = again[:len(m1)+cipher.DefaultNonceSize+cipher.DefaultOverhead]
+	_, _, held, ferr := d.VerifTryDecryptAt(again, t1)
+	inWindow := false
+	if held != nil {
+		for _, kk := range held.Keys {
+			if bytes.Equal(kk, key0) {
+				inWindow = true
+			}
+		}
+	}
+	c.Eval(fmt.Sprintf("est/%d/%d", k.TNs, k.DNs), establishedOK)
+	c.Hist("established_session", fmt.Sprintf("%+d s later: established cipher accepts its original key=%v, first contact under that key accepted=%v, key among the receiver's three=%v", k.DNs/1e9, establishedOK, ferr == nil, inWindow))
+	c.Compared()
+	if !establishedOK {
+		// the model (Spec.parseOne with Rx.key = some k) accepts: established_session_accepts_original_key
+		c.Disagree("C08/corr/established-session-key", fmt.Sprintf("a stateful cipher pair keyed at %dns does not open the sender's next segment %dns later: %v", k.TNs, k.DNs, lerr), k)
+	}
+	if c08Abs(k.DNs) >= 240e9 && (ferr == nil || inWindow) {
+		c.Violate("C08/skew/4min-accepted", fmt.Sprintf("first contact at %dns under a key derived %dns earlier is accepted", k.TNs+k.DNs, k.DNs), k)
+	}
+}
+
+// c08Concurrent: goroutines share the process-wide cache and two decryptors and call getCachedCiphers /
+// tryDecryptAt at instants on both sides of a slot boundary.  No schedule is comparable with a sequential
+// model run; what cache_never_crosses_slots_concurrent says of EVERY interleaving is checked on each result:
+// the entry used was derived for the slot of the caller's own instant.
+func c08Concurrent(c *core.Ctx, k c08Case) {
+	hp := core.UnHex(k.Pass)
+	cipher.VerifResetCipherCache()
+	decs := make([]*cipher.StatelessDecryptor, 2)
+	for i := range decs {
+		decs[i], _ = cipher.VerifNewStatelessDecryptor(hp)
+	}
+	boundary := k.TNs // a rounding tie: instants below it belong to slot A, the others to slot B = A + 120 s
+	slotA, slotB := cipher.VerifCipherKeyEpoch(time.Unix(0, boundary-1)), cipher.VerifCipherKeyEpoch(time.Unix(0, boundary))
+	want := map[int64][][]byte{}
+	// what tryDecryptAt is given: at an instant of slot A a segment sealed for slot A-120 s, at an instant of slot B one
+	// sealed for slot B+120 s — each opens under the entry of the caller's own slot and NOT under the other slot's
+	// entry (A's keys are A-120, A, B; B's are A, B, B+120), so success identifies the entry the call used
+	probe := map[int64][]byte{}
+	for _, e := range []int64{slotA, slotB} {
+		want[e], _ = cipher.VerifKeysAt(hp, time.Unix(e, 0))
+	}
+	probe[slotA], _ = c08Seal(want[slotA][0], []byte("metadata-sized plaintext 32bytes"))
+	probe[slotB], _ = c08Seal(want[slotB][2], []byte("metadata-sized plaintext 32bytes"))
+	const workers, per = 8, 150
+	type job struct {
+		lookup bool
+		dec    int
+		now    int64
+	}
+	jobs := make([][]job, workers)
+	for w := range jobs {
+		for i := 0; i < per; i++ {
+			off := c.Rand.Int63n(20e9) - 10e9
+			if c.Rand.Intn(3) == 0 {
+				off = c.Rand.Int63n(5) - 2
+			}
+			jobs[w] = append(jobs[w], job{c.Rand.Intn(2) == 0, c.Rand.Intn(2), boundary + off})
+		}
+	}
+	var mu sync.Mutex
+	var bads []string
+	n := 0
+	var wg sync.WaitGroup
+	for w := 0; w < workers; w++ {
+		wg.Add(1)
+		go func(w int) {
+			defer wg.Done()
+			for _, j := range jobs[w] {
+				now := time.Unix(0, j.now)
+				ep := cipher.VerifCipherKeyEpoch(now)
+				okE, what := false, ""
+				if j.lookup {
+					e, err := cipher.VerifGetCachedCiphers(string(hp), now)
+					okE = err == nil && e.Epoch == ep && len(e.Keys) == 3
+					for i := 0; okE && i < 3; i++ {
+						okE = bytes.Equal(e.Keys[i], want[ep][i])
+					}
+					what = fmt.Sprintf("getCachedCiphers at %dns (slot %d) returned the entry %s", j.now, ep, c08ShowEntry(&e))
+				} else {
+					_, _, _, derr := decs[j.dec].VerifTryDecryptAt(probe[ep], now)
+					okE = derr == nil
+					what = fmt.Sprintf("tryDecryptAt (decryptor %d) at %dns (slot %d) did not use the entry of its slot: %v", j.dec, j.now, ep, derr)
+				}
+				mu.Lock()
+				n++
+				if !okE {
+					bads = append(bads, what)
+				}
+				mu.Unlock()
+			}
+		}(w)
+	}
+	wg.Wait()
+	c.Eval(fmt.Sprintf("conc/%s/%d", k.Pass, k.TNs), true)
+	c.Hist("concurrent_ops", fmt.Sprintf("%d goroutines x %d ops around a slot boundary", workers, per))
+	if len(bads) > 0 {
+		c.Violate("C08/cache/crosses-slots/concurrent", fmt.Sprintf("%d of %d concurrent operations used key material of another slot, e.g. %s", len(bads), n, bads[0]), k)
 	}
 }
 
@@ -377,8 +814,14 @@ func c08Run(c *core.Ctx, k c08Case) {
 		c08Slot(c, k)
 	case "skew":
 		c08Skew(c, k)
-	case "ts", "ts-abs":
+	case "ts", "ts-abs", "ts-skew":
 		c08Ts(c, k)
+	case "hs":
+		c08Handshake(c, k)
+	case "est":
+		c08Established(c, k)
+	case "conc":
+		c08Concurrent(c, k)
 	case "minute":
 		c08Minute(c, k)
 	case "mid":
@@ -390,20 +833,68 @@ func c08Run(c *core.Ctx, k c08Case) {
 	}
 }
 
-var c08Offsets = []int64{0, 1, -1, 1e9, -1e9, 59e9, -59e9, 60e9, -60e9, 61e9, -61e9}
+// offsets around every boundary instant (both signs): the values named in the property's quantifier and the
+// proved bounds (60 s for stamps, 120 s for keys), each with its ±1 ns neighbours
+var c08Offsets = []int64{0, 1, -1, 1e9, -1e9, 59e9, -59e9, 60e9, -60e9, 60e9 + 1, -60e9 - 1, 61e9, -61e9,
+	120e9 - 1, -120e9 + 1, 120e9, -120e9, 120e9 + 1, -120e9 - 1}
 
-// number of fixed boundary instants at the head of c08Instants' result
-const c08FixedInstants = 8 * 11
+type c08Named struct {
+	d    int64
+	name string
+}
 
-func c08Instants(c *core.Ctx, n int) []int64 {
+func c08Dur(d int64) string {
+	sign := "+"
+	if d < 0 {
+		sign, d = "-", -d
+	}
+	s, ns := d/1e9, d%1e9
+	switch {
+	case ns == 0:
+		return fmt.Sprintf("%s%ds", sign, s)
+	case ns == 1 && s == 0:
+		return sign + "1ns"
+	case ns == 1:
+		return fmt.Sprintf("%s(%ds+1ns)", sign, s)
+	case ns == 1e9-1:
+		return fmt.Sprintf("%s(%ds-1ns)", sign, s+1)
+	}
+	return fmt.Sprintf("%s%d.%09ds", sign, s, ns)
+}
+
+// deterministic skews (both signs): 0, ±1 ns, around 60 s (stamp bound), 120 s (key bound), 180 s, 240 s (rejection bound)
+func c08Skews() []c08Named {
+	abs := []int64{0, 1, 1e9, 59e9, 60e9 - 1, 60e9, 60e9 + 1, 61e9, 119e9, 120e9 - 1, 120e9, 120e9 + 1, 121e9, 179e9,
+		180e9 - 1, 180e9, 180e9 + 1, 239e9, 240e9 - 1, 240e9, 240e9 + 1, 241e9, 300e9, 3600e9}
+	var r []c08Named
+	for _, d := range abs {
+		r = append(r, c08Named{d, c08Dur(d)})
+		if d != 0 {
+			r = append(r, c08Named{-d, c08Dur(-d)})
+		}
+	}
+	return r
+}
+
+// fixed boundary instants at the head of c08Instants' result
+func c08FixedInstantList() []int64 {
 	var r []int64
-	// every kind of boundary: multiples of 60 s and 120 s (odd and even minutes), ± offsets
+	seen := map[int64]bool{}
+	// every kind of boundary: multiples of 60 s and 120 s (odd and even minutes; 1970, 2023, 2100, 2255), ± offsets
 	bases := []int64{1_700_000_040, 1_700_000_100, 1_700_000_160, 0, 120, 60, 4_102_444_800, 9_000_000_000}
 	for _, b := range bases {
 		for _, o := range c08Offsets {
-			r = append(r, b*1e9+o)
+			if t := b*1e9 + o; !seen[t] {
+				seen[t] = true
+				r = append(r, t)
+			}
 		}
 	}
+	return r
+}
+
+func c08Instants(c *core.Ctx, n int) []int64 {
+	r := c08FixedInstantList()
 	for i := 0; i < n; i++ {
 		b := (c.Rand.Int63n(4_000_000_000) / 60) * 60
 		switch c.Rand.Intn(3) {
@@ -418,18 +909,122 @@ func c08Instants(c *core.Ctx, n int) []int64 {
 	return r
 }
 
+// c08AgeHistories: deterministic cache-age / jitter boundaries.  An entry is created at T (mid-slot) and looked up
+// again at T + age for age in {0, valid-maxJitter, valid-maxJitter+1ns, valid-1ns, valid, valid+1ns}: below
+// valid-maxJitter+1ns every draw of the jitter keeps the entry, above valid every draw refreshes it, in between
+// the outcome depends on the draw (the model is asked with the minimal and the maximal draw).  The same with
+// instants that carry a monotonic reading, agreeing with the wall clock and disagreeing with it (wall clock
+// stepped: the age must be taken from the monotonic readings, the slot from the wall clock).
+func c08AgeHistories(pass func() string) []c08Case {
+	valid := cipher.VerifConsts()["cacheValidIntervalNs"]
+	maxJ := cipher.VerifConsts()["cacheValidMaxJitterMs"] * 1e6
+	T := int64(1_700_000_160)*1e9 - 50e9 // slot 1700000160 spans [-60 s, +60 s) around it
+	type age struct {
+		d    int64
+		name string
+	}
+	ages := []age{{0, "0"}, {valid - maxJ, "valid-maxJitter"}, {valid - maxJ + 1, "valid-maxJitter+1ns"}, {valid - 1, "valid-1ns"}, {valid, "valid"}, {valid + 1, "valid+1ns"}}
+	var r []c08Case
+	for _, a := range ages {
+		if a.d < 0 || a.d > 100e9 {
+			continue
+		}
+		r = append(r, c08Case{Kind: "history", Pass: pass(), Note: "age=" + a.name + " (wall only)",
+			Ops: []c08Op{{Kind: "lookup", NowNs: T}, {Kind: "lookup", NowNs: T + a.d}}})
+		r = append(r, c08Case{Kind: "history", Pass: pass(), Note: "age=" + a.name + " (monotonic = wall)",
+			Ops: []c08Op{{Kind: "lookup", NowNs: T, HasMono: true, MonoNs: 7e9}, {Kind: "lookup", NowNs: T + a.d, HasMono: true, MonoNs: 7e9 + a.d}}})
+		// wall clock stepped back to 1 s after T while `age` passed monotonically
+		r = append(r, c08Case{Kind: "history", Pass: pass(), Note: "age=" + a.name + " monotonic, wall +1s",
+			Ops: []c08Op{{Kind: "lookup", NowNs: T, HasMono: true, MonoNs: 7e9}, {Kind: "lookup", NowNs: T + 1e9, HasMono: true, MonoNs: 7e9 + a.d}}})
+		// wall clock stepped forward by `age` (same slot) while 1 s passed monotonically
+		r = append(r, c08Case{Kind: "history", Pass: pass(), Note: "age=" + a.name + " on the wall, monotonic +1s",
+			Ops: []c08Op{{Kind: "lookup", NowNs: T, HasMono: true, MonoNs: 7e9}, {Kind: "lookup", NowNs: T + a.d, HasMono: true, MonoNs: 8e9}}})
+	}
+	// wall clock stepped across slot boundaries while almost no monotonic time passed: the slot test alone must refresh
+	r = append(r, c08Case{Kind: "history", Pass: pass(), Note: "wall stepped +120s, monotonic +1ms",
+		Ops: []c08Op{{Kind: "lookup", NowNs: T, HasMono: true, MonoNs: 7e9}, {Kind: "lookup", NowNs: T + 120e9, HasMono: true, MonoNs: 7e9 + 1e6},
+			{Kind: "try", NowNs: T + 120e9 + 1, HasMono: true, MonoNs: 7e9 + 2e6}, {Kind: "try", NowNs: T - 120e9, HasMono: true, MonoNs: 7e9 + 3e6, SenderSlot: 2},
+			{Kind: "lookup", NowNs: T - 120e9 + 5, HasMono: true, MonoNs: 7e9 + 4e6}}})
+	// two (three) decryptors sharing one password around a slot change
+	r = append(r, c08Case{Kind: "history", Pass: pass(), Note: "three decryptors, one password",
+		Ops: []c08Op{{Kind: "try", NowNs: T, Dec: 0}, {Kind: "try", NowNs: T + 1e9, Dec: 1}, {Kind: "try", NowNs: T + 111e9, Dec: 1, SenderSlot: -1},
+			{Kind: "try", NowNs: T + 112e9, Dec: 0, SenderSlot: -2}, {Kind: "try", NowNs: T + 109e9, Dec: 2}, {Kind: "try", NowNs: T + 113e9, Dec: 2, SenderSlot: 1},
+			{Kind: "lookup", NowNs: T + 2e9}, {Kind: "try", NowNs: T + 3e9, Dec: 1, SenderSlot: 2}, {Kind: "try", NowNs: T + 114e9, Dec: 0}}})
+	return r
+}
+
+// the real minute tick straddled by the real Marshal (just before the tick) and the real Unmarshal (just after),
+// run in the background of the thorough tier (waits for the next tick of the wall clock, up to a minute)
+type c08Tick struct {
+	m0, m1, u0, u1 int64
+	stampS, stampD uint32
+	errS, errD     error
+}
+
+func c08TickStraddle() chan c08Tick {
+	ch := make(chan c08Tick, 1)
+	go func() {
+		next := time.Now().Truncate(time.Minute).Add(time.Minute)
+		if time.Until(next) < time.Second {
+			next = next.Add(time.Minute)
+		}
+		time.Sleep(time.Until(next.Add(-400 * time.Millisecond)))
+		var r c08Tick
+		r.m0 = time.Now().UnixNano()
+		bs, ss := protocol.VerifMarshalSession(protocol.VerifSession{Protocol: 2, SessionID: 7})
+		bd, sd := protocol.VerifMarshalDataAck(protocol.VerifDataAck{Protocol: 6, SessionID: 7, Seq: 1})
+		r.m1 = time.Now().UnixNano()
+		r.stampS, r.stampD = ss, sd
+		time.Sleep(time.Until(next.Add(150 * time.Millisecond)))
+		r.u0 = time.Now().UnixNano()
+		_, r.errS = protocol.VerifUnmarshalSession(bs)
+		_, r.errD = protocol.VerifUnmarshalDataAck(bd)
+		r.u1 = time.Now().UnixNano()
+		ch <- r
+	}()
+	return ch
+}
+
+func c08TickEval(c *core.Ctx, r c08Tick) {
+	min := func(ns int64) int64 { return ns / 1e9 / 60 }
+	if min(r.m0) != min(r.m1) || min(r.u0) != min(r.u1) || min(r.u0) != min(r.m0)+1 {
+		c.Res.Discarded++ // scheduling delays: the two calls did not straddle exactly one tick
+		c.Hist("real_tick_straddle", "discarded (no clean straddle)")
+		return
+	}
+	c.Eval("tick-straddle", true)
+	m := c.Model.Ask("c08-ts-skew %d %d", r.u0, r.m0)
+	c.Compared()
+	c.Hist("real_tick_straddle", fmt.Sprintf("Marshal %d ms before the tick, Unmarshal %d ms after: accepted=%v", (r.u0/60e9*60e9-r.m1)/1e6, (r.u0-r.u0/60e9*60e9)/1e6, r.errS == nil && r.errD == nil))
+	if m != fmt.Sprintf("ok true %d %d", r.stampS+1, r.stampS) || r.stampS != r.stampD {
+		c.Disagree("C08/corr/tick-straddle", fmt.Sprintf("Marshal at %dns stamped %d/%d, Unmarshal at %dns: model %s", r.m0, r.stampS, r.stampD, r.u0, m), c08Case{Kind: "tick"})
+	}
+	if r.errS != nil || r.errD != nil {
+		c.Violate("C08/timestamp/tick-straddle-rejected", fmt.Sprintf("segment marshalled at %dns (stamp %d), unmarshalled %d ms later, right after the minute tick: session err=%v, dataAck err=%v", r.m0, r.stampS, (r.u0-r.m0)/1e6, r.errS, r.errD), c08Case{Kind: "tick"})
+	}
+}
+
 func init() {
 	// the key-schedule and cache constants go into lean/Mieru/Gen/Consts.lean (tie T): the theorems
 	// `consts_tie` (C08) and `spec_consts_match_code` (C09) are about these regenerated values
 	core.AddConsts(cipher.VerifConsts)
 	core.Register("C08", &core.Scenario{
 		Run: func(c *core.Ctx) {
-			c.Res.Rule = "instants = multiples of 60 s and 120 s (1970, 2023, 2100, 2255) ± {0,1ns,1s,59s,60s,61s} plus random instants incl. within 1 µs of the rounding tie; skews d = ±{0,1ns,1s,59s,60s-1ns,60s,60s+1ns,61s,119s,120s,121s,179s,180s,239s,240s-1ns,240s,241s,300s,1h}; stamps k = -3..3 minutes and absolute stamps at the uint32 wrap for both metadata kinds; Mid/WithinRange on random and wrap-adjacent triples; histories of 20-60 getCachedCiphers/tryDecryptAt calls with non-monotonic instants walking across slot boundaries and the 25-30 s validity zone. Distinct = distinct canonical case; non-trivial = a decrypt succeeded / a history ran."
+			c.Res.Rule = "EVERY run, before the random stream: instants = multiples of 60 s and 120 s (1970, 2023, 2100, 2255) ± {0,1ns,1s,59s,60s,60s+1ns,61s,120s-1ns,120s,120s+1ns} x skews d = ±{0,1ns,1s,59s,60s-1ns,60s,60s+1ns,61s,119s,120s-1ns,120s,120s+1ns,121s,179s,180s-1ns,180s,180s+1ns,239s,240s-1ns,240s,240s+1ns,241s,300s,1h}; first contact at the real clock with key instant and stamp instant each over the same skews; stamps k = -3..3 minutes, stamps of senders at the same skews, absolute stamps 0,1,2,2^31-1,2^31,2^31+1,2^32-2,2^32-1 for both metadata kinds; cache ages {0, valid-maxJitter, +1ns, valid-1ns, valid, valid+1ns} with and without (dis)agreeing monotonic readings; three decryptors on one password; an established cipher pair hours later. Then random instants incl. within 1 µs of the rounding tie, random skews, Mid/WithinRange on random and wrap-adjacent triples, histories of 20-60 getCachedCiphers/tryDecryptAt calls (3 decryptors) with non-monotonic wall instants walking across slot boundaries and the validity zone, with monotonic readings that follow or leave the wall clock. Distinct = distinct canonical case; non-trivial = a decrypt succeeded / a history ran."
 			c.Correspondence("c08-slot: pkg/cipher cipherKeyEpoch, saltFromTime vs Mieru.Time.epoch/saltTimes")
 			c.Correspondence("c08-kc-try (fresh state): StatelessDecryptor.tryDecryptAt under skew vs Mieru.KeyCache.tryEntry + slotKeys")
-			c.Correspondence("c08-ts-ok, c08-minute: sessionStruct/dataAckStruct Unmarshal timestamp check and Marshal stamp vs Mieru.Time.tsAccept/minuteU32")
+			c.Correspondence("c08-ts-ok, c08-ts-skew, c08-minute: sessionStruct/dataAckStruct Unmarshal timestamp check and Marshal stamp vs Mieru.Time.tsAccept/minuteU32")
 			c.Correspondence("c08-mid, c08-within, c08-within-u32: pkg/mathext Mid/WithinRange vs Mieru.Time.mid/withinRange/withinRangeU32")
-			c.Correspondence("c08-kc-lookup/try histories: getCachedCiphers + tryDecryptAt on the process-wide cache vs Mieru.KeyCache.step")
+			c.Correspondence("c08-kc-lookup/try histories: getCachedCiphers + tryDecryptAt (several decryptors, monotonic readings) on the process-wide cache vs Mieru.KeyCache.step")
+			c.Correspondence("c08-recv-first-tcp/udp: real key selection at tr + real Unmarshal of a first segment keyed for tk and stamped for ts vs Mieru.Handshake.recvFirstTcp/recvFirstUdp")
+			c.Correspondence("c08gen-*: definitions regenerated from the source (Mieru.Gen.FactsC08) vs the real cipherKeyEpoch, saltFromTime, Mid, WithinRange, Marshal stamp, Unmarshal timestamp test")
+			if c.Gen == nil {
+				c.Note("C08: mieru-gen is not available; the regenerated definitions are not compared with the real functions in this run")
+			}
+			var tick chan c08Tick
+			if c.Thorough() {
+				tick = c08TickStraddle()
+			}
 			runCorpus(c, func(raw json.RawMessage) {
 				var k c08Case
 				if json.Unmarshal(raw, &k) == nil {
@@ -437,37 +1032,71 @@ func init() {
 				}
 			})
 			hp := func() string { b := make([]byte, 32); c.Rand.Read(b); return core.Hex(b) }
+			nFixed := len(c08FixedInstantList())
 			inst := c08Instants(c, c.N(150, 3000))
 			for i, t := range inst {
 				k := c08Case{Kind: "slot", TNs: t}
 				if i == 5 {
 					c.Sample(k)
 				}
+				if i < nFixed {
+					c.Hist("instants", "fixed boundary instant")
+				} else {
+					c.Hist("instants", "random instant")
+				}
 				c08Run(c, k)
 			}
 			// skews
-			skews := []int64{0, 1, 1e9, 59e9, 60e9 - 1, 60e9, 60e9 + 1, 61e9, 119e9, 120e9, 121e9, 179e9, 180e9, 239e9, 240e9 - 1, 240e9, 241e9, 300e9, 3600e9}
+			skews := c08Skews()
 			pw := hp()
 			nsk := 0
 			for ti, t := range inst {
 				for _, d := range skews {
 					// every fixed boundary instant x every skew in both tiers; for the random instants all
 					// skews in thorough and a seeded sample in quick
-					if ti >= c08FixedInstants && !c.Thorough() && c.Rand.Intn(12) != 0 {
+					if ti >= nFixed && !c.Thorough() && c.Rand.Intn(24) != 0 {
 						continue
 					}
-					for _, sgn := range []int64{1, -1} {
-						if d == 0 && sgn < 0 {
-							continue
-						}
-						k := c08Case{Kind: "skew", TNs: t, DNs: sgn * d, Pass: pw}
-						if nsk == 3 {
-							c.Sample(k)
-						}
-						nsk++
-						c08Run(c, k)
+					k := c08Case{Kind: "skew", TNs: t, DNs: d.d, Pass: pw}
+					if ti < nFixed {
+						k.Note = d.name
+					}
+					if nsk == 3 {
+						c.Sample(k)
+					}
+					nsk++
+					c08Run(c, k)
+				}
+			}
+			// first contact with its three instants (receiver = the real clock), timestamps of skewed senders
+			for li, d := range skews {
+				layout := []string{"s", "d"}[li%2]
+				c08Run(c, c08Case{Kind: "hs", Layout: layout, DNs: d.d, A: 0, Pass: pw})
+				if c08Abs(d.d) <= 300e9 {
+					c08Run(c, c08Case{Kind: "hs", Layout: layout, DNs: 0, A: d.d, Pass: pw})
+					for _, l := range []string{"s", "d"} {
+						c08Run(c, c08Case{Kind: "ts-skew", Layout: l, DNs: d.d, Note: d.name})
 					}
 				}
+			}
+			for _, dk := range []int64{120e9, -120e9} {
+				for _, ds := range []int64{60e9, -60e9} {
+					c08Run(c, c08Case{Kind: "hs", Layout: "s", DNs: dk, A: ds, Pass: pw})
+				}
+			}
+			// an established cipher pair keeps its key (documented scope of the four-minute clause)
+			for _, t0 := range []int64{1_700_000_100*1e9 - 1, 1_700_000_040 * 1e9} {
+				for _, d := range []int64{241e9, 600e9, 36000e9, -3600e9} {
+					c08Run(c, c08Case{Kind: "est", TNs: t0, DNs: d, Pass: pw})
+				}
+			}
+			// goroutines sharing the cache and two decryptors around a rounding tie
+			for i := 0; i < c.N(2, 20); i++ {
+				c08Run(c, c08Case{Kind: "conc", TNs: (1_700_000_100 + 120*int64(i)) * 1e9, Pass: hp()})
+			}
+			// deterministic cache-age / jitter / monotonic / several-decryptor histories
+			for _, k := range c08AgeHistories(hp) {
+				c08Run(c, k)
 			}
 			for i := 0; i < c.N(200, 3000); i++ {
 				t := inst[c.Rand.Intn(len(inst))]
@@ -482,15 +1111,21 @@ func init() {
 				}
 				c08Run(c, c08Case{Kind: "skew", TNs: t, DNs: d, Pass: hp()})
 			}
+			for i := 0; i < c.N(10, 200); i++ {
+				dk := c.Rand.Int63n(600e9+1) - 300e9
+				ds := c.Rand.Int63n(300e9+1) - 150e9
+				c08Run(c, c08Case{Kind: "hs", Layout: []string{"s", "d"}[i%2], DNs: dk, A: ds, Pass: hp()})
+			}
 			// timestamps
 			for rep := 0; rep < c.N(3, 20); rep++ {
 				for _, layout := range []string{"s", "d"} {
 					for kk := -3; kk <= 3; kk++ {
 						c08Run(c, c08Case{Kind: "ts", Layout: layout, K: kk})
 					}
-					for _, ts := range []uint32{0, 1, 2, 0xffffffff, 0xfffffffe, 0x7fffffff, 0x80000000, c.Rand.Uint32()} {
-						c08Run(c, c08Case{Kind: "ts-abs", Layout: layout, Ts: ts})
+					for _, ts := range []uint32{0, 1, 2, 0xffffffff, 0xfffffffe, 0x7fffffff, 0x80000000, 0x80000001} {
+						c08Run(c, c08Case{Kind: "ts-abs", Layout: layout, Ts: ts, Note: fmt.Sprint(ts)})
 					}
+					c08Run(c, c08Case{Kind: "ts-abs", Layout: layout, Ts: c.Rand.Uint32()})
 					c08Run(c, c08Case{Kind: "ts", Layout: layout, K: c.Rand.Intn(2000) - 1000})
 				}
 				c08Run(c, c08Case{Kind: "minute"})
@@ -519,8 +1154,13 @@ func init() {
 			for i := 0; i < c.N(40, 600); i++ {
 				base := (1_600_000_000 + c.Rand.Int63n(400_000_000)) / 120 * 120 * 1e9
 				cur := base + []int64{0, 60e9, -60e9, 30e9}[c.Rand.Intn(4)]
+				// 0: wall-only instants; 1: monotonic readings that follow the wall clock; 2: monotonic readings that only
+				// move forward while the wall clock walks (steps back, jumps); 3: a mixture of both kinds of instants
+				monoMode := i % 4
+				mono := int64(5e9)
 				var ops []c08Op
 				for j := 0; j < 20+c.Rand.Intn(41); j++ {
+					prev := cur
 					switch c.Rand.Intn(10) {
 					case 0:
 						cur += c.Rand.Int63n(2e6) - 1e6 // ± 1 ms
@@ -541,7 +1181,27 @@ func init() {
 					}
 					op := c08Op{Kind: "lookup", NowNs: cur}
 					if c.Rand.Intn(2) == 0 {
-						op = c08Op{Kind: "try", NowNs: cur, SenderSlot: []int{0, 0, 1, -1, 2, -2}[c.Rand.Intn(6)]}
+						op = c08Op{Kind: "try", NowNs: cur, SenderSlot: []int{0, 0, 1, -1, 2, -2}[c.Rand.Intn(6)], Dec: []int{0, 0, 1, 2}[c.Rand.Intn(4)]}
+					}
+					switch monoMode {
+					case 1:
+						mono += cur - prev
+						op.HasMono, op.MonoNs = true, mono
+					case 2, 3:
+						// monotonic time advances by the size of the wall step, or by an amount of its own near the validity bounds
+						switch c.Rand.Intn(4) {
+						case 0:
+							mono += c08Abs(cur - prev)
+						case 1:
+							mono += c.Rand.Int63n(2e9)
+						case 2:
+							mono += 24e9 + c.Rand.Int63n(7e9)
+						default:
+							mono += c.Rand.Int63n(40e9)
+						}
+						if monoMode == 2 || c.Rand.Intn(2) == 0 {
+							op.HasMono, op.MonoNs = true, mono
+						}
 					}
 					ops = append(ops, op)
 				}
@@ -552,6 +1212,15 @@ func init() {
 				c08Run(c, k)
 			}
 			cipher.VerifResetCipherCache()
+			if tick != nil {
+				select {
+				case r := <-tick:
+					c08TickEval(c, r)
+				case <-time.After(130 * time.Second):
+					c.Res.Discarded++
+					c.Hist("real_tick_straddle", "discarded (timed out)")
+				}
+			}
 		},
 		Replay: func(c *core.Ctx, raw json.RawMessage) {
 			var k c08Case
